@@ -17,6 +17,16 @@ EN = "bibtexparser.model.Entry."
 EPT = "bibtexparser.entrypoint."
 IP = "bibtexparser.middlewares.interpolate."
 PROPS = {
+    "C17": {
+        "level": "other",
+        "level_text": "Mixed. Proved (contracts on the real functions; any entry whose Field objects are distinct; any keys): alphabetical sorting returns exactly the entry's Field objects, each once, in key order (code-point order), ties in source order, idempotent on sorted input, from the assumed stable-sort contract of sorted(); key normalisation makes every key the lower-cased old key, keys unique, each key keeps the Field object of its LAST occurrence, keys appear in the order of FIRST occurrences (loop invariant over the ordered-dict model), every old key is covered; both leave values, entry type and key untouched (frames). Bounded (native, labelled): custom-order sorting and the order-list validation (the sort key is a closure with exception control flow), idempotence of normalisation, other blocks untouched end to end.",
+        "level_note": STD_NOTE + "; A-SORT: sorted() returns a stable permutation ordered by the key; ordered-dict semantics (A-DICT); str.lower uninterpreted (idempotent).",
+        "modules": ["schema", "fieldorder"],
+        "functions": ["bibtexparser.middlewares.sorting_entry_fields.SortFieldsAlphabeticallyMiddleware.transform_entry",
+                      "bibtexparser.middlewares.fieldkeys.NormalizeFieldKeys.transform_entry"],
+        "native": "p17",
+        "explanation": "proved: alphabetical field sort (stable permutation by key, idempotent), key normalisation (lower-case, unique, last value wins, first-occurrence order, values intact); bounded: custom-order sort and its validation, idempotence of normalisation",
+    },
     "C11": {
         "level": "other",
         "level_text": "Mixed. Proved (contracts on the real interpolate functions, in-place mode, any library whose entry fields are distinct objects): the exact resolution rule -- a str value that is not enclosed and is a key of the live @string index is replaced by that string's value object, every other field keeps its value object; String blocks, keys, types, raw, block list and the string index are outside the frame; the live @string per key is the first one by the library's first-wins index (C08/C09 contracts). Bounded (native, labelled): documents of the quantifier through parse_string (source text -> values needs the grammar lemma), copy mode, the recorded key list, order before enclosing removal end to end (the order itself is C20's default-stack clause).",
